@@ -252,7 +252,7 @@ Proof. intros H. revert H. vm_compute. intros H. first [discriminate H | repeat 
 Definition ops_merged_tombstone : list gop :=
   [GEdit 1 0 2 10; gpush 1 0; GEdit 2 0 3 20; GDelete 2 0 30; GEdit 1 0 4 40; gpull 1 (rs_fun (RSMerge 9)) 0 50].
 
-Theorem C06_raw_tombstone_redelivery_refuted :
+Theorem C06_raw_tombstone_redelivery_refuted : known_tombstone_cancelled = false ->
   let s := grun gsys0 ops_merged_tombstone in
   exists x y, gdoc s 1 0 = Some x /\ gdoc s 2 0 = Some y /\
     greg_from gsys0 ops_merged_tombstone = true /\
@@ -263,4 +263,18 @@ Theorem C06_raw_tombstone_redelivery_refuted :
     (* raw: the merge's current version is replaced by the tombstone it had merged *)
     vobs (fst (fst (gput (Some (rs_fun (RSMerge 9))) 1 0 (gclk s 1) y x))) = Some ((2, 30), 0, true) /\
     snd (fst (gput (Some (rs_fun (RSMerge 9))) 1 0 (gclk s 1) y x)) = GApplied.
-Proof. eexists. eexists. split; [vm_compute; reflexivity|]. split; [vm_compute; reflexivity|]. vm_compute. repeat split; reflexivity. Qed.
+Proof.
+  intros H. revert H. vm_compute. intros H. first [discriminate H |
+    eexists; eexists; split; [reflexivity|]; split; [reflexivity|]; repeat split; reflexivity].
+Qed.
+
+(* since 6e0c2ba: the raw re-delivery is cancelled, the merge's current version stays *)
+Theorem C06_raw_tombstone_redelivery_repaired : known_tombstone_cancelled = true ->
+  let s := grun gsys0 ops_merged_tombstone in
+  exists x y, gdoc s 1 0 = Some x /\ gdoc s 2 0 = Some y /\
+    vobs (Some x) = Some ((1, 50), 0, true) /\ vobs (Some y) = Some ((2, 30), 0, true) /\
+    gput (Some (rs_fun (RSMerge 9))) 1 0 (gclk s 1) y x = (Some x, GCancelled, gclk s 1).
+Proof.
+  intros H. revert H. vm_compute. intros H. first [discriminate H |
+    eexists; eexists; split; [reflexivity|]; split; [reflexivity|]; repeat split; reflexivity].
+Qed.
